@@ -111,7 +111,7 @@ def proc_job(item, tier):
                 diff = (min(len(base[0]), len(o[0])), f"{len(base[0])} rows rc={base[1]}",
                         f"{len(o[0])} rows rc={o[1]} {o[2][-200:]}")
             rp = world["workload"]["graphs"][0].get("release_policy")
-            out.append({"rule": "process.trace_differs",
+            out.append({"rule": "process.trace_differs", "ident": tag,
                         "msg": f"{tag}: env {ENVS[0]} vs {ENVS[k]}: first difference at "
                                f"row {diff[0]}: {diff[1]!r} != {diff[2]!r}",
                         "case": {"tag": tag, "world": world}, "world": world,
@@ -139,7 +139,7 @@ def inproc_job(item, tier):
     b = H.run_world(w)
     out = []
     if mask(a.rows) != mask(b.rows) or a.status != b.status:
-        out.append({"rule": "inprocess.trace_differs",
+        out.append({"rule": "inprocess.trace_differs", "ident": tag,
                     "msg": f"{tag}: two in-process runs differ",
                     "case": {"tag": tag, "world": w, "inproc": True}, "world": w})
     return {"states": 1, "transitions": 2, "validated": 2, "evaluations": 2,
@@ -196,4 +196,4 @@ def main(tier, seed):
 
 
 def replay(path):
-    return generic_replay("C09", path, confirm_job, extra=("quick",))
+    return generic_replay("C09", path, confirm_job, extra=("quick",), item_job=job)
